@@ -363,9 +363,14 @@ class Moment:
     def _with_rescoped_keys_(
         self, path: tuple[str, ...], bindable_keys: frozenset[cirq.MeasurementKey]
     ):
-        return Moment(
-            protocols.with_rescoped_keys(op, path, bindable_keys) for op in self.operations
-        )
+        # The operations of a moment are applied in order: a control may follow, in the same
+        # moment, the measurement it reads.
+        operations = []
+        for op in self.operations:
+            new_op = protocols.with_rescoped_keys(op, path, bindable_keys)
+            operations.append(new_op)
+            bindable_keys |= protocols.measurement_key_objs(new_op)
+        return Moment(operations)
 
     def __copy__(self):
         return type(self)(self.operations)
